@@ -186,6 +186,54 @@ def after_em(ctx, root, ncols, rs):
                                  random_state=int(rs.randint(1000)), verbose=False)
 
 
+def extreme_clt_stream(ctx):
+    """Chow-Liu trees whose evidence masses differ by hundreds of nats within ONE batch: wide trees (130..220 variables) and small
+    trees with strongly peaked tables; rows with almost everything missing next to rows with almost everything observed. Reference:
+    an independent log-domain recursion (harness/clt.py ref_clt_logvalue), row by row."""
+    from harness import clt as CL
+    quick = ctx.tier == 'quick'
+    for k in range(10 if quick else 120):
+        rs = np.random.RandomState(np_seed(ctx.sub_rng('extreme', k)))
+        wide = (k % 2 == 0)
+        n = int(rs.choice([130, 160, 220])) if wide else int(rs.randint(4, 8))
+        clt, pred = CL.make_wide_clt(rs, n, peaked=not wide)
+        clt.id = 0
+        full = rs.randint(2, size=(6, n)).astype(np.float32)
+        X = full.copy()
+        X[0, :] = np.nan                                   # nothing observed
+        X[1, :] = np.nan; X[1, int(rs.randint(n))] = 1     # one variable observed
+        X[2, int(rs.randint(n))] = np.nan                  # all but one observed
+        X[3, rs.rand(n) < 0.5] = np.nan
+        X[4, rs.rand(n) < 0.05] = np.nan
+        # X[5] complete
+        as_leaf = (k % 4 >= 2)
+        if as_leaf:
+            root = assign_ids(Product(children=[clt, Bernoulli(n, 0.3)]))
+            XX = np.hstack([X, np.full((len(X), 1), np.nan, dtype=np.float32)])
+        else:
+            root, XX = clt, X
+        lp = np.asarray(clt.params, dtype=np.float64)
+        tag = ('wide' if wide else 'peaked') + ('-as-leaf' if as_leaf else '-alone')
+        ctx.case('extreme-clt', nontrivial_key=('extreme', k), sample=dict(stream='extreme-clt', kind=tag, variables=n) if k < 4 else None)
+        ctx.count('extreme-clt:' + tag)
+        rep = dict(kind='c02-extreme', pred=pred, params=lp.tolist(), rows=np.where(np.isnan(X), None, X).tolist(), as_leaf=as_leaf)
+        try:
+            ll = np.asarray(impl_ll(root, XX), dtype=np.float64).reshape(-1)
+        except Exception as ex:
+            ctx.violation('c02-inference-raises', f'log_likelihood raised {type(ex).__name__}: {ex} on a valid Chow-Liu tree over {n} variables', replay=rep)
+            return
+        for r in range(len(X)):
+            row = [None if np.isnan(t) else int(t) for t in X[r]]
+            ref = CL.ref_clt_logvalue(pred, lp, row)
+            ctx.count('extreme-clt-rows')
+            if abs(ll[r] - ref) > 2e-2 + 2e-4 * abs(ref):
+                nmiss = sum(1 for t in row if t is None)
+                ctx.violation('c02-marginal-vs-completions:extreme', f'{tag} tree over {n} variables, row with {nmiss} missing entries evaluated in a batch of {len(X)} rows: '
+                                                                    f'log_likelihood {float(ll[r])!r} but the log of the sum over completions is {ref!r}',
+                              replay=dict(rep, row_index=r))
+                return
+
+
 def run(ctx):
     n_nets = 400 if ctx.tier == 'quick' else 6000
     n_pat = 32 if ctx.tier == 'quick' else 64
@@ -207,6 +255,8 @@ _run_core = run
 
 def run(ctx):
     _run_core(ctx)
+    if ctx.n_new(with_input_only=True) == 0:
+        extreme_clt_stream(ctx)
     if ctx.n_new() == 0 and ctx.driver_ok:
         from harness.common import run_demo
         run_demo(ctx, 'demo_tr3.py', [1 + ctx.seed], 'c02-code-vs-generated-vs-model',
@@ -220,6 +270,21 @@ def run(ctx):
 
 
 def replay(rep):
+    if rep['replay'].get('kind') == 'c02-extreme':
+        from harness import clt as CL
+        r = rep['replay']
+        n = len(r['pred'])
+        clt = BinaryCLT(list(range(n)), root=r['pred'].index(-1), tree=r['pred'], params=r['params'])
+        clt.id = 0
+        X = np.array([[np.nan if t is None else t for t in row] for row in r['rows']], dtype=np.float32)
+        root, XX = (assign_ids(Product(children=[clt, Bernoulli(n, 0.3)])), np.hstack([X, np.full((len(X), 1), np.nan, dtype=np.float32)])) if r['as_leaf'] else (clt, X)
+        ll = np.asarray(impl_ll(root, XX), dtype=np.float64).reshape(-1)
+        ok = True
+        for i in range(len(X)):
+            ref = CL.ref_clt_logvalue(r['pred'], np.array(r['params']), [None if np.isnan(t) else int(t) for t in X[i]])
+            print('row', i, 'log_likelihood', float(ll[i]), 'reference', ref)
+            ok = ok and abs(ll[i] - ref) <= 2e-2 + 2e-4 * abs(ref)
+        return bool(ok)
     if rep['replay'].get('kind') == 'demo':
         from harness.common import replay_demo
         return replay_demo(rep['replay'])
